@@ -17,7 +17,7 @@ from vc import types as ty
 from vc.engine import LoopSpec, contract
 from vc.report import file_lemma, lemma, replayer, structural
 from vc.sym import B, S, cur, wrap_bool, wrap_str
-from vc.terms import BOOL, STR
+from vc.terms import BOOL, INT, STR
 
 SLASH = tm.mk_str("/")
 
@@ -392,9 +392,40 @@ class find_owning_static_tree:
         if isinstance(e.trees, sym.SymSeq) else True)}
 
 
+def _ijwn_exists(labels, body) -> tm.T:
+    c = cur()
+    j = tm.Var(c.fresh_name("j!bound"), INT)
+    return tm.Exists([(j.s, INT)], tm.And(tm.Le(tm.mk_int(0), j), tm.Lt(j, labels.length), body(S(labels.elem(j)))))
+
+
+def _ijwn_post(path, tree_labels, result, trace):
+    """Justified exactly when (A) the match is a static tree or lies inside one: some tree label is a prefix of the
+    match with a separator appended; or the match is a directory (ends with the separator) and (B1) contains a
+    static tree: the match is a prefix of some tree label (a root match contains every tree), or (B2) the scan of
+    the stored static files finds one.  A match that is not a directory is never justified by a tree or file that
+    merely shares a name prefix with it."""
+    p = S(path)
+    sep = tm.SuffixOf(SLASH, p)
+    probe = tm.Ite(sep, p, tm.Concat(p, SLASH))
+    root = tm.Or(tm.Eq(p, tm.mk_str("./")), tm.Eq(p, tm.mk_str("/")))
+    inside = _ijwn_exists(tree_labels, lambda l: tm.PrefixOf(l, probe))
+    contains_tree = tm.Or(tm.And(root, tm.Gt(tree_labels.length, tm.mk_int(0))),
+                          _ijwn_exists(tree_labels, lambda l: tm.PrefixOf(p, l)))
+    fetches = [e for e in trace if e.kind == "sql.fetchone"]
+    if len(fetches) > 1:
+        return False
+    hit = tm.Not(fetches[0].isnone) if fetches else tm.FALSE
+    decided_without_store = tm.Or(inside, tm.Not(sep), contains_tree)
+    return wrap_bool(tm.And(tm.Iff(B(result), tm.Or(inside, tm.And(sep, tm.Or(contains_tree, hit)))),
+                            tm.Iff(tm.mk_bool(len(fetches) == 0), decided_without_store)))
+
+
 @contract("stepup/core/workflow.py::Workflow._is_justified_without_node", props=["C18"])
 class is_justified_without_node:
-    """The SQL arm scans exactly the labels under `path` unless `path` is a root, where no range is used."""
+    """The SQL arm scans exactly the labels under `path` unless `path` is a root, where no range is used; the Python
+    arms compare whole components (see _ijwn_post)."""
+
+    ensures = _ijwn_post
 
     args = dict(self=workflow_spec(queries=[("SELECT 1 FROM node JOIN file", ty.TupleOf(ty.Int))]),
                 path=ty.Str, tree_labels=ty.SeqOf(ty.Str))
